@@ -433,6 +433,58 @@ func planCanon(p *Prog, stdlib, methods bool) canonPlan {
 					// F(X) == C for a function of this module that is `if COND(p) { return C1 }; return C2` (constants):
 					// the comparison is COND(X), its negation, or a constant - read off the function's body as it is now
 					if x.Op == token.EQL || x.Op == token.NEQ {
+						// T{a: A1, b: B1} == T{a: A2, b: B2} (two keyed literals of one struct type, as left by the expansion of a
+						// "summary" constructor) is the comparison field by field
+						if l1, ok1 := ast.Unparen(x.X).(*ast.CompositeLit); ok1 {
+							if l2, ok2 := ast.Unparen(x.Y).(*ast.CompositeLit); ok2 && free(x.Pos(), x.End()) {
+								t1, t2 := info.TypeOf(l1), info.TypeOf(l2)
+								if t1 != nil && t2 != nil && types.Identical(t1, t2) {
+									if _, isStruct := t1.Underlying().(*types.Struct); isStruct && len(l1.Elts) == len(l2.Elts) && len(l1.Elts) > 0 {
+										f1, f2 := map[string]ast.Expr{}, map[string]ast.Expr{}
+										var order []string
+										okKV := true
+										for i := range l1.Elts {
+											k1, isKV1 := l1.Elts[i].(*ast.KeyValueExpr)
+											k2, isKV2 := l2.Elts[i].(*ast.KeyValueExpr)
+											if !isKV1 || !isKV2 {
+												okKV = false
+												break
+											}
+											n1, isId1 := k1.Key.(*ast.Ident)
+											n2, isId2 := k2.Key.(*ast.Ident)
+											if !isId1 || !isId2 {
+												okKV = false
+												break
+											}
+											f1[n1.Name], f2[n2.Name] = k1.Value, k2.Value
+											order = append(order, n1.Name)
+										}
+										for _, k := range order {
+											if f2[k] == nil {
+												okKV = false
+											}
+										}
+										// every field of the type is spelt out (an omitted field is zero on both sides: fine too, but
+										// keep to the complete form)
+										if okKV && len(order) == t1.Underlying().(*types.Struct).NumFields() {
+											op, join := " == ", " && "
+											if x.Op == token.NEQ {
+												op, join = " != ", " || "
+											}
+											var parts []string
+											for _, k := range order {
+												parts = append(parts, "("+in.text(f1[k].Pos(), f1[k].End())+")"+op+"("+in.text(f2[k].Pos(), f2[k].End())+")")
+											}
+											fe := in.file(x.Pos())
+											fe.edits = append(fe.edits, textEdit{start: in.off(x.Pos()), end: in.off(x.End()), text: "(" + strings.Join(parts, join) + ")"})
+											taken = append(taken, [2]token.Pos{x.Pos(), x.End()})
+											plan.expanded = append(plan.expanded, "comparison of two struct literals field by field")
+											return false
+										}
+									}
+								}
+							}
+						}
 						if txt, ok := twoValuedCompare(p, in, info, x); ok && free(x.Pos(), x.End()) {
 							fe := in.file(x.Pos())
 							fe.edits = append(fe.edits, textEdit{start: in.off(x.Pos()), end: in.off(x.End()), text: txt})
